@@ -520,7 +520,9 @@ def drive(ctx, focus, n_runs, want, reads_per_run=(5, 9), config_hook=None, extr
         if C.get("cores", 1) > 1 and "sched_seed" not in C:
             C["sched_seed"] = rng.randrange(10**6)
             C["sched_weights"] = rng.choice((None, {"W0": 0.05}, {"W1": 0.05}, {"M": 0.1}, {"W0": 5.0}))
+        snap = json.loads(json.dumps(dict(C=C, r1=r1, r2=r2)))        # everything a replay needs to re-run this run
         ev, sampler, res = GR.observe_run(C, r1, r2, os.path.join(ctx.scratch, "run"))
+        ev["_replay"] = snap
         ev["C"] = {k: v for k, v in C.items() if k not in ("ads1", "ads2", "sched_weights")}
         ev["C"]["ads1"] = [GR.adapter_arg(a) for a in C.get("ads1", [])]
         ev["C"]["ads2"] = [GR.adapter_arg(a) for a in C.get("ads2", [])]
